@@ -37,6 +37,10 @@ CHECKS["C07"] = dict(level="other", design="3/C07", technique="same line engine 
     text="The checked operations (saturated/throwing/trapping, both detection paths) are recompiled in release mode with signed overflow, out-of-range shifts, division by zero / lowest/-1, unreachable and invalid builtin arguments instrumented as traps. On a line a surviving trap is a leaf of the ite tree and the interval partition states for exactly which operand values it executes: a non-empty set is a definite undefined operation. Two-operand kernels must contain no trap where LLVM can discharge them.",
     note="Relational safety of the final unchecked operation for two free operands is undecidable for LLVM's range analysis (counted as undischarged, never an alarm); along lines it is decided.")
 
+CHECKS["C08"] = dict(level="other", design="3/C08", technique="IR equivalence for the non-division operators and for neg_inf against the textbook floor-division definition; divisor-pinned lines whose ite-tree leaves are matched to the bias-then-divide family with the offset demanded by an exact rational-rounding oracle; UB-mode lines for the bias arithmetic",
+    text="All operators other than / are shown equal to the built-in ones; neg_inf division equals floor division for all operand pairs; for nearest and tie_to_pos_inf the rounding direction is decided for every dividend along lines with the divisor pinned to a set of constants (both signs, ties, type limits), by recognising each leaf as s_out*trunc((s_in*a+c)/|K|) and comparing (s_out,s_in,c) with the closed form derived from the mode's definition (validated against Fraction arithmetic on each run); the bias arithmetic is checked for undefined operations on UB lines in both directions.",
+    note="Rounding direction for two free operands is decided only for neg_inf; for nearest/tie_to_pos_inf only along divisor-pinned lines. Leaves outside the recognised family are undecided (floor-guarded), never alarms.")
+
 NOT_APPLICABLE = {
     "C10": "limb-array loops of the vendored uintwide_t have data-dependent control; no static abstraction in reach relates them to arithmetic mod 2^N (DESIGN 3/C10)",
     "C17": "termination/accuracy of the floating-point driven Stern-Brocot loop is a numerical statement with no structural clause (DESIGN 3/C17)",
